@@ -99,9 +99,11 @@ class FakeTransport:
 class World:
     """n real nodes (indices 1..n), outsider index n+1; address/peer index 0 is the zero address."""
 
-    def __init__(self, n: int, rng: _random.Random, delay: float = 0):
+    def __init__(self, n: int, rng: _random.Random, delay: float = 0, hidden: bool = False, dualstack=()):
         import vclock
         self.delay = delay
+        self.hidden = hidden
+        self.v6_of: dict[int, tuple] = {}
         from ipv8.messaging.anonymization import exit_socket as es_mod
         from ipv8.messaging.anonymization.community import TunnelCommunity, TunnelSettings
         from ipv8.messaging.anonymization.tunnel import PEER_FLAG_EXIT_BT, PEER_FLAG_RELAY, PEER_FLAG_SPEED_TEST
@@ -121,7 +123,13 @@ class World:
         self.raised = 0
         world = self
 
-        class Node(TunnelCommunity):
+        if hidden:
+            from ipv8.messaging.anonymization.hidden_services import HiddenTunnelCommunity as Base
+            from ipv8.messaging.anonymization.hidden_services import HiddenTunnelSettings as SettingsCls
+        else:
+            Base, SettingsCls = TunnelCommunity, TunnelSettings
+
+        class Node(Base):
             def on_raw_data(self, circuit, origin, data):
                 rec = (world.node_of[id(self)], circuit.circuit_id, origin, data)
                 world.orig_log.append(rec)
@@ -156,12 +164,15 @@ class World:
         self.node_of = {}
         flags = {PEER_FLAG_RELAY, PEER_FLAG_SPEED_TEST, PEER_FLAG_EXIT_BT}
         for i in range(1, n + 2):
-            s = TunnelSettings()
+            s = SettingsCls()
             s.min_circuits = 0
             s.max_circuits = 0
             s.remove_tunnel_delay = delay
             s.peer_flags = set(flags)
-            node = MockIPv8("curve25519", Node, settings=s)
+            if i in dualstack:
+                node = self._dualstack_node(Node, s, i)
+            else:
+                node = MockIPv8("curve25519", Node, settings=s)
             node.overlay.cancel_all_pending_tasks()
             probe_cls = type("ProbePayload", (), {"msg_id": 0x63})
             import inspect
@@ -170,20 +181,23 @@ class World:
                 node.overlay.add_cell_handler(probe_cls, node.overlay.on_probe_message, from_exit=True)
             else:
                 node.overlay.add_cell_handler(probe_cls, node.overlay.on_probe_message)
-            ep = node.endpoint
-
             def send(ep_self, addr, packet, _w=world):
                 p = Pkt(ep_self.wan_address, tuple(addr), bytes(packet))
                 _w.flight.append(p)
                 _w.step_sends.append(p)
 
-            ep.send = types.MethodType(send, ep)
+            for ep in (list(node.endpoint.interfaces.values()) if i in dualstack else [node.endpoint]):
+                ep.send = types.MethodType(send, ep)
+            if i not in dualstack:
+                node.wan = tuple(node.endpoint.wan_address)
             self.nodes.append(node)
             self.node_of[id(node.overlay)] = i
         self.addr_idx = {ZERO: 0}
         self.key_idx = {}
+        for i, a6 in self.v6_of.items():
+            self.addr_idx[tuple(a6)] = i
         for i in range(1, n + 2):
-            self.addr_idx[tuple(self.nodes[i].endpoint.wan_address)] = i
+            self.addr_idx[tuple(self.nodes[i].wan)] = i
             self.key_idx[self.nodes[i].my_peer.public_key.key_to_bin()] = i
         for i in range(1, n + 1):
             for j in range(1, n + 1):
@@ -194,6 +208,48 @@ class World:
                     a.network.discover_services(b.my_peer, [a.overlay.community_id])
         self.prefix = self.nodes[1].overlay.get_prefix()
         IPV8_SHAPED["prefix"] = self.prefix
+
+    def _dualstack_node(self, node_cls, settings, i: int):
+        """A node on a real DispatcherEndpoint with an IPv4 and an IPv6 interface (the production layout when IPv6 is
+        enabled); the two interfaces are in-memory endpoints."""
+        from ipv8.keyvault.crypto import default_eccrypto
+        from ipv8.messaging.interfaces.dispatcher import endpoint as dmod
+        from ipv8.messaging.interfaces.udp.endpoint import UDPv4Address, UDPv6Address
+        from ipv8.peer import Peer
+        from ipv8.peerdiscovery.network import Network
+        from ipv8.test.mocking.endpoint import MockEndpoint
+        a4 = UDPv4Address("10.77.0.%d" % i, 7000 + i)
+        a6 = UDPv6Address("fd00::%x" % i, 7000 + i)
+
+        def mk(a):
+            ep = MockEndpoint(a, a)
+            ep.open()
+            return ep
+        saved = dict(dmod.INTERFACES)
+        dmod.INTERFACES["UDPIPv4"] = lambda: mk(a4)
+        dmod.INTERFACES["UDPIPv6"] = lambda: mk(a6)
+        try:
+            endpoint = dmod.DispatcherEndpoint(["UDPIPv4", "UDPIPv6"])
+        finally:
+            dmod.INTERFACES.clear()
+            dmod.INTERFACES.update(saved)
+        my_peer = Peer(default_eccrypto.generate_key("curve25519"), a4)
+        fwd = node_cls.settings_class(my_peer=my_peer, endpoint=endpoint, network=Network())
+        settings.__dict__.update(fwd.__dict__)
+        overlay = node_cls(settings)
+        overlay.my_estimated_wan = a4
+        overlay.my_estimated_lan = a4
+        self.v6_of[i] = tuple(a6)
+
+        class Shim:
+            pass
+        sh = Shim()
+        sh.endpoint, sh.overlay, sh.my_peer, sh.network, sh.wan = endpoint, overlay, my_peer, overlay.network, tuple(a4)
+
+        async def stop():
+            await overlay.unload()
+        sh.stop = stop
+        return sh
 
     # ---- plumbing --------------------------------------------------------------------------------------
     def ov(self, i):
@@ -212,7 +268,7 @@ class World:
         return self.key_idx[kb]
 
     def addr(self, i):
-        return tuple(self.nodes[i].endpoint.wan_address)
+        return tuple(self.nodes[i].wan)
 
     async def _drain(self):
         for _ in range(400):
@@ -239,9 +295,12 @@ class World:
             d[("E", cid)] = (e.bytes_up, e.bytes_down, e.last_activity)
         return d
 
-    def inject(self, i: int, src, data: bytes):
+    def inject(self, i: int, src, data: bytes, iface: str | None = None):
         try:
-            self.nodes[i].endpoint.notify_listeners((src, data))
+            ep = self.nodes[i].endpoint
+            if i in self.v6_of:      # dual-stack node: the datagram arrives on one of the two interfaces
+                ep = ep.interfaces[iface or ("UDPIPv6" if ":" in src[0] else "UDPIPv4")]
+            ep.notify_listeners((src, data))
         except Exception:   # e.g. RuntimeError("Decryption failed") escaping process_cell: C03/C04 territory
             self.raised += 1
         self.drain()
@@ -323,6 +382,10 @@ class World:
                              tuple(r.hop.address), r.direction)
         for cid, e in o.exit_sockets.items():
             d[("E", cid)] = (id(e), id(e.hop.keys), e.hop.peer.public_key.key_to_bin(), tuple(e.hop.address))
+        for pk, (sock, info_hash) in getattr(o, "intro_point_for", {}).items():
+            d[("I", pk)] = (sock.circuit_id, id(sock), info_hash)
+        for cookie, sock in getattr(o, "rendezvous_point_for", {}).items():
+            d[("V", cookie)] = (sock.circuit_id, id(sock))
         return d
 
     def header(self, p: Pkt):
@@ -413,6 +476,10 @@ class History:
             d["late"] = self.late
         if getattr(self, "search", None):
             d["search"] = self.search
+        if getattr(self, "intro", None):
+            d["intro"] = self.intro
+        if getattr(self, "dual", None):
+            d["dual"] = True
         if extra:
             d.update(extra)
         return d
@@ -439,7 +506,8 @@ class History:
         self.ctx.count(f"action:{kind}")
         self.check_logs()
         for p_ in w.step_sends:
-            if re.search(rb"d5:[FB]:\d+:\d+:\d+:x", p_.data):
+            m_ = re.search(rb"d5:[FB]:(\d+):(\d+):\d+:x", p_.data)
+            if m_ and not self.circs.get((int(m_.group(1)), int(m_.group(2))), {}).get("abused"):
                 # O10: every data payload of the harness carries the tag; it must never be readable on a link
                 self.fail("PythonCryptoEndpoint.send_cell:payload-on-the-wire-unencrypted",
                           f"a datagram to {w.aidx(p_.dst)} carries a data payload in clear: {w.header(p_)}", {"node": node})
@@ -544,6 +612,9 @@ class History:
                 # the harness' own unencrypted DATA cell, injected at a backward relay, was accepted by an originator
                 # whose circuit has exactly as many verified hops as relays added layers (circuit still extending)
                 c_ = w.ov(i).circuits.get(cid_label)
+                if self.circs.get((i, cid_label), {}).get("abused"):
+                    self.ctx.count("delivered:on-a-circuit-its-owner-re-plumbed")
+                    continue
                 if c_ is None or len(c_.hops) >= c_.goal_hops:
                     # NOT the known finding: the circuit is complete, every layer of a genuine reply is checked
                     self.fail("TunnelCommunity.on_data:third-party-data-delivered",
@@ -648,12 +719,32 @@ class History:
                 self.allow_pop(node, h[2])
         routes = {c: r for c, r in w.ov(node).relay_from_to.items()}
         nested = getattr(p, "nested", False)
-        ids_before = w.identity(node) if nested else None
+        ids_before = w.identity(node)
+        allowed = {h[2]}
+        if h[2] in routes:
+            allowed.add(routes[h[2]].circuit_id)
+        for k_, c_ in w.ov(node).request_cache._identifiers.items():
+            if k_.startswith("create:") and c_.to_circuit_id == h[2]:
+                allowed.add(c_.from_circuit_id)
         w.inject(node, p.src, p.data)
+        # O11 (frame): a datagram naming circuit id X touches only X's entry, its relay pair and - for a CREATED - the exit
+        # entry whose extension it answers; every entry, hop address and service registration of another circuit stays
+        ids_after = w.identity(node)
+        r_after = w.ov(node).relay_from_to.get(h[2])
+        if r_after is not None:
+            allowed.add(r_after.circuit_id)
+        for k_, v_ in ids_before.items():
+            owner = v_[0] if k_[0] in "IV" else k_[1]
+            if owner not in allowed and ids_after.get(k_) != v_:
+                self.fail("TunnelCommunity:cell-of-one-circuit-changed-another-circuits-entry",
+                          f"node {node}: a {h[1]} naming circuit id {h[2]} (role {role}) changed the entry {k_[0]} "
+                          f"{k_[1] if k_[0] in 'CRE' else k_[1].hex()[:12]} of circuit {owner}: {v_[1:]} -> "
+                          f"{(ids_after.get(k_) or ('gone',))[1:]}", {"node": node})
+                break
         if nested:
             for p_ in w.step_sends:
                 p_.nested = True
-            if "C" in role and (w.identity(node) != ids_before or w.step_orig or w.step_exit or
+            if "C" in role and (ids_after != ids_before or w.step_orig or w.step_exit or
                                 (w.step_sends and "R" not in role)):
                 self.fail("TunnelCommunity.on_data:nested-message-dispatched",
                           f"a datagram from outside that imitates a tunnel message (sender-chosen circuit id and source) came "
@@ -739,7 +830,7 @@ class History:
 
     def ready_circuits(self):
         self.refresh_bk()
-        return [(k, bk) for k, bk in self.circs.items() if bk.get("alive") and bk.get("ready")]
+        return [(k, bk) for k, bk in self.circs.items() if bk.get("alive") and bk.get("ready") and not bk.get("abused")]
 
     def act_send_data(self, which=None):
         rc = self.ready_circuits()
@@ -872,6 +963,34 @@ class History:
         self.record(f"sd {o} {cid} {w.aidx(dest)} {tag_num('F', o, cid, self.seq)}", o, "send-data-unfinished-circuit", True,
                     ("sdu", len(c.hops), len(w.step_sends)))
 
+    def act_adversarial_extend(self):
+        """The owner of a circuit is not bound to send_extend: it sends an EXTEND of its own making over its circuit,
+        naming the public key of ANY node together with an address of its choice (as an originator does for a required
+        exit), or with no address."""
+        from ipv8.messaging.anonymization.payload import ExtendPayload
+        w, rng = self.w, self.rng
+        cands = [(o, cid) for o in range(1, w.n + 1) for cid, c in w.ov(o).circuits.items()
+                 if c.hops and c.state != "CLOSING"]
+        if not cands:
+            return
+        o, cid = rng.choice(cands)
+        c = w.ov(o).circuits[cid]
+        target = rng.randint(1, w.n)
+        addr_kind = rng.choice(["null", "true", "outsider", "other-node", "random"])
+        addr = {"null": ZERO, "true": w.addr(target), "outsider": w.addr(w.n + 1),
+                "other-node": w.addr(rng.randint(1, w.n)),
+                "random": ("9.8.%d.%d" % (rng.randrange(256), rng.randrange(256)), 1 + rng.randrange(65000))}[addr_kind]
+        ident = rng.getrandbits(16)
+        _, dh = w.ov(o).crypto.generate_diffie_secret()
+        w.begin()
+        w.ov(o).send_cell(c.hop.address, ExtendPayload(cid, ident, w.nodes[target].my_peer.public_key.key_to_bin(), dh, addr))
+        w.drain()
+        if (o, cid) in self.circs:
+            # the owner re-plumbs its own circuit behind its own back: whatever happens to ITS traffic now is its own doing
+            self.circs[(o, cid)]["abused"] = True
+        self.record(f"sx {o} {cid} {ident + 1} {target}", o, "adversarial-extend", True, ("sx", addr_kind, len(c.hops)))
+        self.ctx.count(f"adversarial_extend:addr={addr_kind}")
+
     def act_ping(self):
         w = self.w
         o = self.rng.randint(1, w.n)
@@ -944,7 +1063,7 @@ class History:
             lines = [f"xq {i} {cid}" for cid in sorted(c0 - c1)] + [f"xp {i} {num + 1}" for num in sorted(p0 - p1)]
             if w.delay:
                 # remove_* tasks whose sleep(remove_tunnel_delay) ended: the entry is popped by id
-                gone = [k for k in tables0[i] if k not in w.identity(i)]
+                gone = [k for k in tables0[i] if k[0] in "CRE" and k not in w.identity(i)]
                 lines += [f"rx{kind} {i} {cid}" for (kind, cid) in sorted(gone)]
                 for (kind, cid) in gone:
                     if kind in "RE" and (i, kind, tables0[i][(kind, cid)][0]) not in self.may_pop:
@@ -1112,10 +1231,14 @@ class History:
                 if rng.random() < 0.5:
                     pl = PingPayload(cid, 7)
                 else:
-                    pl = DataPayload(cid, ZERO, ("10.6.6.6", 666), mk_tag("B", 0, 0, 0))
+                    to_exit = self.role(node, cid).startswith("E")
+                    pl = DataPayload(cid, ("10.6.6.6", 666) if to_exit else ZERO, ZERO if to_exit else ("10.6.6.6", 666),
+                                     mk_tag("F" if to_exit else "B", 0, 0, 0))
                 body = bytes([pl.msg_id]) + w.ov(att).serializer.pack_serializable(pl)[4:]
                 cell = CellPayload(cid, body, False, re_)
-                spec = "other:6" if pl.msg_id == 6 else f"data:0:{w.aidx(('10.6.6.6', 666))}:{tag_num('B', 0, 0, 0)}"
+                spec = "other:6" if pl.msg_id == 6 else (
+                    f"data:{w.aidx(('10.6.6.6', 666))}:0:{tag_num('F', 0, 0, 0)}" if pl.dest_address != ZERO else
+                    f"data:0:{w.aidx(('10.6.6.6', 666))}:{tag_num('B', 0, 0, 0)}")
                 line = f"fc {node} {w.aidx(src)} {cid} 0 {int(re_)} [] {spec}"
             elif kind == "pt_other":
                 ser = w.ov(att).serializer
@@ -1164,13 +1287,19 @@ class History:
                 line = f"fc {node} {w.aidx(src)} {cid} 1 {int(re_)} [] created:{ident + 1}:1:{att}:0"
             acct = w.accounting(node)
             w.begin()
-            w.inject(node, src, cell.to_bin(w.prefix))
+            w.inject(node, src, cell.to_bin(w.prefix), self.force.get("iface"))
             if kind in ("junk", "splice", "clear", "pt_other") and not hit:
                 # O7: a cell that is dropped before it reaches any handler must not move the traffic counters or the
                 # heartbeat of a circuit / exit socket (they decide about inactivity and traffic-limit removal)
                 after_acct = w.accounting(node)
                 moved = sorted(k for k in acct if k in after_acct and after_acct[k] != acct[k])
-                if moved:
+                if moved and (w.step_exit or w.step_orig):
+                    self.fail("PythonCryptoEndpoint.process_cell:forged-cell-accepted",
+                              f"forged {kind} cell for id {cid} (role {role}) from {src} at node {node}"
+                              f"{' on interface ' + self.force['iface'] if self.force.get('iface') else ''} was handled as if it "
+                              f"carried the circuit's keys: {len(w.step_exit)} datagram(s) left an exit socket, "
+                              f"{len(w.step_orig)} delivered to the application", {"node": node})
+                elif moved:
                     self.fail("PythonCryptoEndpoint.process_cell:accounting-moved-by-dropped-cell",
                               f"forged {kind} cell for id {cid} (role {role}) from {src} at node {node} was dropped but moved "
                               f"bytes/last_activity of {moved}: {[(acct[k], after_acct[k]) for k in moved]}",
@@ -1211,7 +1340,7 @@ class History:
             body = bytes([pl.msg_id]) + w.ov(att).serializer.pack_serializable(pl)[4:]
             cell = CellPayload(cid, body, True, rng.random() < 0.5)
             w.begin()
-            w.inject(node, src, cell.to_bin(w.prefix))
+            w.inject(node, src, cell.to_bin(w.prefix), self.force.get("iface"))
             busy = "C" in role or "R" in role or "E" in role or "q" in role
             if busy:
                 self.forged_noop_check("TunnelCommunity.on_create:id-in-use-accepted",
@@ -1302,7 +1431,7 @@ class History:
         w.begin()
         w.inject(node, src, bytes(pkt))
         after = w.identity(node)
-        removed = sorted(k for k in before if k not in after)
+        removed = sorted(k for k in before if k[0] in "CRE" and k not in after)
         changed = sorted(k for k in before if k in after and after[k] != before[k])
         authorised = sigok and adj is not None and w.key_idx.get(adj) == signer
         what = (f"destroy for id {cid} (role {role}) at node {node} signed by peer {signer} "
@@ -1607,6 +1736,87 @@ class History:
         finally:
             w.close()
 
+    def run_intro_points(self, same_key: bool, same_hash: bool, via: str):
+        """Hidden services: two circuits X (node 1) and W (node 2) end in node 3.  X registers as introduction point for
+        seeder key K / info hash H; then an establish-intro arrives over W (same or another key, same or another hash),
+        either from W's owner or - `via` = "nested" - as an outside datagram imitating one.  X's registration must stay."""
+        from ipv8.messaging.anonymization.payload import EstablishIntroPayload
+        _random.seed(self.sc_seed)
+        self.w = World(4, self.rng, hidden=True)
+        w = self.w
+        try:
+            kx, kw = self.act_open((1, 1, 3)), self.act_open((2, 1, 3))
+            self.flush()
+            self.refresh_bk()
+            if kx is None or kw is None or not all(self.circs[k].get("ready") for k in (kx, kw)):
+                self.ctx.count("intro-points:setup-incomplete")
+                return
+            key_k, key_l = b"K" * 32, b"L" * 32
+            h1, h2 = b"\x11" * 20, b"\x22" * 20
+
+            def establish(key, pk, ih):
+                o, cid = key
+                c = w.ov(o).circuits[cid]
+                w.begin()
+                w.ov(o).send_cell(c.hop.address, EstablishIntroPayload(cid, 7, ih, pk))
+                w.drain()
+                self.hist.extend(w.step_sends)
+                self.stepno += 1
+                self.flush()
+            establish(kx, key_k, h1)
+            reg = dict(w.ov(3).intro_point_for)
+            if key_k not in reg:
+                self.ctx.count("intro-points:not-registered")
+                return
+            before = w.identity(3)
+            establish(kw, key_k if same_key else key_l, h1 if same_hash else h2)
+            after = w.identity(3)
+            if after.get(("I", key_k)) != before[("I", key_k)]:
+                self.fail("HiddenTunnelCommunity.on_establish_intro:registration-of-another-circuit-replaced",
+                          f"node 3: circuit {kx[1]} was the introduction point for seeder key K (info hash H1); an "
+                          f"establish-intro over circuit {kw[1]} ({'same' if same_key else 'other'} key, "
+                          f"{'same' if same_hash else 'other'} info hash) changed that registration to "
+                          f"{after.get(('I', key_k))}", {"node": 3})
+            self.ctx.count(f"intro-points:histories:key={'same' if same_key else 'other'}:hash={'same' if same_hash else 'other'}")
+            _ = via
+            if not self.failed:
+                self.final_probe()
+        finally:
+            w.close()
+
+    def run_dualstack(self):
+        """Configuration class: the exit node runs on a DispatcherEndpoint with an IPv4 and an IPv6 interface.  Two circuits
+        end there; after legitimate traffic every kind of forged cell is delivered on EACH interface."""
+        _random.seed(self.sc_seed)
+        self.w = World(4, self.rng, dualstack=(3,))
+        w = self.w
+        try:
+            self.lines.append("reset 4")
+            self.expect.append({"sends": [], "tables": None, "log": [], "step": -1, "kind": "reset"})
+            ka, kb = self.act_open((1, 1, 3)), self.act_open((2, 2, 3))
+            self.flush()
+            self.refresh_bk()
+            for k in (ka, kb):
+                if k is not None and self.circs[k].get("ready"):
+                    self.act_send_data((k, self.circs[k]))
+            self.flush()
+            ids = list(w.ov(3).exit_sockets) + list(w.ov(3).relay_from_to) + [0xC0500003]
+            v6src = ("fd00::66", 6666)
+            for cid in ids:
+                for iface, src in (("UDPIPv6", v6src), ("UDPIPv4", w.addr(w.n + 1))):
+                    for kind in ("clear", "junk", "pt_other", "pt_create", "pt_created", "splice"):
+                        if self.failed:
+                            return
+                        self.force = {"kind": kind, "target": (3, cid), "src": src, "iface": iface}
+                        self.act_forge()
+                        self.ctx.count(f"dualstack:{iface}:{kind}")
+            self.force = {}
+            if not self.failed:
+                self.final_probe()
+            self.ctx.count("dualstack:histories")
+        finally:
+            w.close()
+
     def run_opening(self, seq, hops: int):
         """Small-scope exhaustive scenario: two circuits of different originators end at the SAME exit node; `seq`
         interleaves, per circuit, two first data cells (D) with the completion of its exit socket's IPv4 (4) and
@@ -1775,6 +1985,8 @@ class History:
                     self.act_reply_nested()
                 elif r < 0.90:
                     self.act_send_unfinished()
+                elif r < 0.93:
+                    self.act_adversarial_extend()
                 else:
                     self.act_forge()
             if not self.failed and self.stop_at is None and self.do_sweep:
@@ -1995,6 +2207,18 @@ def run_reuses(ctx: Ctx, use_model: bool):
         fresh = [f for f in ctx.failures if not f["signature"].endswith("third-party-data-delivered-while-extending")]
         if len(fresh) >= 3 or len(ctx.disagreements) >= 3:
             return
+    h = History(ctx, ctx.rng.getrandbits(48))
+    h.dual = True
+    h.run_dualstack()
+    if use_model and not h.failed:
+        compare(ctx, h, ctx.driver().batch(h.lines))
+    for same_key in (True, False):
+        for same_hash in (True, False):
+            h = History(ctx, ctx.rng.getrandbits(48))
+            h.intro = {"same_key": same_key, "same_hash": same_hash, "via": "owner"}
+            h.run_intro_points(same_key, same_hash, "owner")      # oracle only: hidden services are not in the driver
+    if len([f for f in ctx.failures if not f["signature"].endswith("third-party-data-delivered-while-extending")]) >= 3:
+        return
     k = 0
     for delay in (0, 5):
         for when in ("at-once", "after-ready"):
@@ -2019,7 +2243,7 @@ def run(ctx: Ctx):
         return replay(ctx, ctx.replay_input)
     run_reuses(ctx, ctx.model_ok)
     run_openings(ctx, ctx.model_ok)
-    run_histories(ctx, ctx.scale(400, 5000), ctx.model_ok, sweeps=ctx.scale(2, 60))
+    run_histories(ctx, ctx.scale(300, 4000), ctx.model_ok, sweeps=ctx.scale(2, 60))
 
 
 def search(ctx: Ctx, reason: str):
@@ -2031,7 +2255,13 @@ def search(ctx: Ctx, reason: str):
 def replay(ctx: Ctx, rec: dict):
     r = rec.get("replay", rec)
     h = History(ctx, r["sc_seed"], stop_at=None, verbose=True, do_sweep=bool(r.get("sweep")))
-    if r.get("search"):
+    if r.get("intro"):
+        h.intro = r["intro"]
+        h.run_intro_points(**r["intro"])
+    elif r.get("dual"):
+        h.dual = True
+        h.run_dualstack()
+    elif r.get("search"):
         h.search = r["search"]
         h.run_identifier_search(r["search"]["unknown_cid"])
     elif r.get("late"):
